@@ -130,7 +130,7 @@ def run(ctx):
                             continue
                         jobs.append((ctx.repo, D, N, M, ki, kf, pi, pf, flags, padding, rd, ld, (5,) if th else ()))
     by = {}
-    for job, r in zip(jobs, ctx.pmap(worker, jobs)):
+    for job, r in ctx.pairs(worker, jobs):
         cfg = r["cfg"]
         n_g = cfg.get("group_elements", 0)
         bad = len([1 for k, _, _ in r["problems"] if k in ("equivariance", "rejected")])
@@ -141,7 +141,7 @@ def run(ctx):
         for kind, what, site in r["problems"]:
             by.setdefault(("convolve", FN_MOD, kind), []).append((what, site, cfg))
     pj = [(ctx.repo, D, pi, pf, ki, kf) for D in (2, 3) for pi in (0, 1) for pf in (0, 1) for (ki, kf) in (((0, 0), (1, 1), (0, 1)) if D == 2 else ((0, 0), (1, 0)))]
-    for job, r in zip(pj, ctx.pmap(parity_worker, pj)):
+    for job, r in ctx.pairs(parity_worker, pj):
         cfg = r["cfg"]
         ev.obligation("declared-type", not r["problems"], tuple(str(v) for v in cfg.values()), sample=cfg if cfg["image"] == [1, 1] and cfg["filter"] == [1, 0] else None)
         for kind, what, site in r["problems"]:
